@@ -142,7 +142,70 @@ func findIIFE(fset *token.FileSet, f *ast.File, src []byte, n int) *srcEdit {
 		}
 		return false
 	}
+	tryHoist := func(node ast.Node) {
+		// an IIFE with one result used inside a larger expression of a simple statement whose other
+		// operands are free of calls, receives and indexing: hoist it into a temporary first
+		switch st := node.(type) {
+		case *ast.AssignStmt, *ast.ReturnStmt:
+			var target *ast.CallExpr
+			var fl *ast.FuncLit
+			pure := true
+			ast.Inspect(st, func(n ast.Node) bool {
+				switch x := n.(type) {
+				case *ast.FuncLit:
+					return false
+				case *ast.CallExpr:
+					if f, ok := iife(x); ok && target == nil && nres(f) == 1 && !named(f) {
+						target, fl = x, f
+						return false
+					}
+					if id, ok := x.Fun.(*ast.Ident); ok {
+						switch id.Name {
+						case "int", "int8", "int16", "int32", "int64", "uint", "uint8", "uint16", "uint32", "uint64", "byte", "float32", "float64", "string", "len", "cap":
+							return true
+						}
+					}
+					pure = false
+				case *ast.IndexExpr, *ast.SliceExpr, *ast.StarExpr, *ast.TypeAssertExpr:
+					pure = false
+				case *ast.UnaryExpr:
+					if x.Op == token.ARROW {
+						pure = false
+					}
+				case *ast.BinaryExpr:
+					if x.Op == token.QUO || x.Op == token.REM || x.Op == token.LAND || x.Op == token.LOR {
+						pure = false
+					}
+				}
+				return true
+			})
+			if target == nil || !pure {
+				return
+			}
+			// direct forms are handled by the caller
+			if as, ok := st.(*ast.AssignStmt); ok && len(as.Rhs) == 1 && as.Rhs[0] == ast.Expr(target) {
+				return
+			}
+			if rs, ok := st.(*ast.ReturnStmt); ok && len(rs.Results) == 1 && rs.Results[0] == ast.Expr(target) {
+				return
+			}
+			t := text(fl.Type.Results.List[0].Type.Pos(), fl.Type.Results.List[0].Type.End())
+			tmp := fmt.Sprintf("%sResult0", label)
+			body := rewrite(fl, func(r *ast.ReturnStmt) string {
+				if len(r.Results) != 1 {
+					return "break " + label
+				}
+				return "{\n" + tmp + " = " + text(r.Results[0].Pos(), r.Results[0].End()) + "\nbreak " + label + "\n}"
+			})
+			stmt := text(st.Pos(), target.Pos()) + tmp + text(target.End(), st.End())
+			edit = &srcEdit{off(st.Pos()), off(st.End()), "var " + tmp + " " + t + "\n" + label + ":\nfor {\n" + body + "\nbreak " + label + "\n}\n" + stmt}
+		}
+	}
 	ast.Inspect(f, func(node ast.Node) bool {
+		if edit != nil {
+			return false
+		}
+		tryHoist(node)
 		if edit != nil {
 			return false
 		}
